@@ -37,6 +37,37 @@ SameFiles(bs1, bs2) ==
   /\ Len(bs1) = Len(bs2)
   /\ \A i \in DOMAIN bs1 : bs1[i].ts = bs2[i].ts /\ bs1[i].recs = bs2[i].recs
 
+\* concatenation of the records of a sequence of backups
+FlatRecs(bs) ==
+  LET F[i \in 0..Len(bs)] == IF i = 0 THEN << >> ELSE F[i - 1] \o bs[i].recs IN F[Len(bs)]
+
+\* Several writes `ids` (in this order) with NO barrier between them - they race the
+\* post-rotation compress / clean-up goroutine - observed once, at quiescence, as (cur2, cb2,
+\* clast, bks2); clast / b.last = size of the last record of the file, b.bytes = its size.
+\* any number of rotations may have happened.  all = TRUE: every record must be there (they
+\* were all processed: barrier).  all = FALSE: Close was called while they were queued - the
+\* statement promises nothing for records not processed before Close, so any of them may be
+\* missing; those present are in order, and everything processed earlier is intact.
+\* (Generated only for configurations in which a backup created during the step cannot itself
+\* be outdated: maxBackups = 0 or >= the number of writes.)
+BurstFailed(c, cur, bks, ids, all, cur2, cb2, clast, bks2) ==
+  LET B       == Range(bks)
+      B2      == Range(bks2)
+      oldTs   == {b.ts : b \in B}
+      fresh   == SelectSeq(bks2, LAMBDA b : b.ts \notin oldTs)
+      kept    == {b \in B2 : b.ts \in oldTs}
+      removed == {b \in B : b.ts \notin {x.ts : x \in B2}}
+      R       == FlatRecs(fresh) \o cur2
+      W       == IF all THEN ids ELSE SelectSeq(ids, LAMBDA x : x \in Range(R))
+      sized   == c.rule = "size" /\ c.maxSize > 0
+  IN  (IF R = cur \o W THEN {} ELSE {"burst-content"})
+      \cup (IF c.gzip => \A b \in Range(fresh) : b.gz THEN {} ELSE {"compression"})
+      \cup (IF \A b2 \in kept : \E b \in B : b.ts = b2.ts /\ b.recs = b2.recs THEN {} ELSE {"backup-changed"})
+      \cup (IF removed \subseteq Outdated(c, B \cup Range(fresh)) THEN {} ELSE {"removed-not-outdated"})
+      \cup (IF sized => /\ \A b \in Range(fresh) : Len(b.recs) > 1 => b.bytes - b.last <= c.maxSize
+                        /\ Len(cur2) > 1 => cb2 - clast <= c.maxSize
+              THEN {} ELSE {"size-bound"})
+
 \* A write of record `id` (0 = an empty record: nothing to find in the files) of `size` bytes
 \* takes (cur, cb, bks) to the observed (cur2, cb2, bks2).  A rotation may come before the
 \* record is appended (the record opens the new current file) or after it (the record closes
